@@ -425,20 +425,22 @@ class BackwardScheduler(IScheduler):
     def __backward_pass(
             self,
             _task: Task,
-            min_date: datetime,
             resource_usage: _ResourceUsage,
             calculated: List[int]
     ):
         if _task.id in calculated:
             return
 
-        for pred in _task.successors:
-            self.__backward_pass(pred, min_date, resource_usage, calculated)
-
-        min_successor_starts = min([t.start for t in _task.successors if t.start is not None] + [min_date])
+        # Task must be finished before its own successors and successors of all its parents start,
+        # no matter from where the task is reached
+        min_successor_starts = self.__end
+        for t in [_task] + [p for p in _task.all_parents]:
+            for succ in t.successors:
+                self.__backward_pass(succ, resource_usage, calculated)
+            min_successor_starts = min([s.start for s in t.successors if s.start is not None] + [min_successor_starts])
 
         for ch in reversed(_task.children):
-            self.__backward_pass(ch, min_successor_starts, resource_usage, calculated)
+            self.__backward_pass(ch, resource_usage, calculated)
 
         resource = self.__resources.setdefault(_task.resource, Resource(_task.resource))
 
@@ -457,9 +459,9 @@ class BackwardScheduler(IScheduler):
                 else:
                     children_ends = [t.end for t in _task.children if t.end is not None]
                     if len(children_ends) == 0:
-                        _task.end = min_date
+                        _task.end = min_successor_starts
                     else:
-                        _task.end = min(max(children_ends), min_date)
+                        _task.end = max(children_ends)
 
             if _task.estimate is None:
                 if is_leaf:
@@ -475,7 +477,7 @@ class BackwardScheduler(IScheduler):
 
             if is_leaf:
                 left_hours = max(_task.estimate - _task.spent, 0)
-                end = min(_task.end, min_date)
+                end = min(_task.end, min_successor_starts)
                 start = self.__shift_by_resource_usage_and_calendar(
                     resource, resource_usage, end, _task, left_hours
                 )
@@ -505,7 +507,7 @@ class BackwardScheduler(IScheduler):
 
         calculated = []
         for i in range(len(backward_roots) - 1, -1, -1):
-            self.__backward_pass(backward_roots[i], self.__end, backward_resource_usage, calculated)
+            self.__backward_pass(backward_roots[i], backward_resource_usage, calculated)
 
         return Schedule(
             backward,
